@@ -6,6 +6,7 @@ import (
 	"compress/gzip"
 	"context"
 	"encoding/json"
+	"errors"
 	"fmt"
 	"io"
 	"sort"
@@ -65,13 +66,21 @@ func writeTar(ents []tarEntry) []byte {
 	return buf.Bytes()
 }
 
-// sliceReadSeeker hands out tape-sliced reads.
+// sliceReadSeeker hands out tape-sliced reads; failAt > 0: the failAt-th Read fails once (a transient read error of the medium).
 type sliceReadSeeker struct {
-	e *core.Env
-	r *bytes.Reader
+	e      *core.Env
+	r      *bytes.Reader
+	failAt int
+	reads  int
+	failed bool
 }
 
 func (s *sliceReadSeeker) Read(p []byte) (int, error) {
+	s.reads++
+	if s.failAt > 0 && s.reads == s.failAt {
+		s.failed = true
+		return 0, errors.New("simulated read error of the archive medium")
+	}
 	if len(p) > 1 {
 		switch s.e.Choose("slice", 4, "rs") {
 		case 1:
@@ -216,9 +225,22 @@ func runC09Docker(e *core.Env) {
 		e.Probe("docker-archive-selected-later-image")
 	}
 	simrt.Event("ImageImport of a docker-format archive (%d images, select %q)", nImg, selName)
-	if err := rc.ImageImport(ctx, mustRef(tgt.refStr("imp")), &sliceReadSeeker{e: e, r: bytes.NewReader(arch)}, iopts...); err != nil {
+	// one case in four: a single read of the archive fails somewhere; the import may then fail, but if it reports
+	// success the image must still be the archive's
+	rdr := &sliceReadSeeker{e: e, r: bytes.NewReader(arch)}
+	if e.Choose("gen", 4, "readfault") == 3 {
+		rdr.failAt = 1 + e.Choose("gen", 400, "readfaultat")
+	}
+	if err := rc.ImageImport(ctx, mustRef(tgt.refStr("imp")), rdr, iopts...); err != nil {
+		if rdr.failed {
+			e.Probe("docker-import-failed-on-read-error")
+			return
+		}
 		e.Violation("import", "docker-import-failed", "importing a docker-format archive (%v) failed: %v", sample, err)
 		return
+	}
+	if rdr.failed {
+		e.Probe("docker-import-succeeded-despite-read-error")
 	}
 	drainTasks(e, 10)
 	ts := tgt.store()
@@ -410,6 +432,16 @@ func runC09(e *core.Env) {
 			for _, l := range dm[0].Layers {
 				if _, ok := files[l]; !ok {
 					e.Violation("archive", "docker-manifest-dangling", "manifest.json names layer %s which is not in the archive", l)
+				}
+			}
+			// loadable: one entry per layer of the image, in order (a layer that occurs twice is listed twice)
+			if gr.Root.Kind == "image" && len(gr.Root.Blobs) > 0 {
+				var want []string
+				for _, b := range gr.Root.Blobs[1:] {
+					want = append(want, "blobs/"+strings.Replace(b.Desc.Digest, ":", "/", 1))
+				}
+				if strings.Join(want, ",") != strings.Join(dm[0].Layers, ",") {
+					e.Violation("archive", "docker-manifest-layers-differ", "manifest.json lists %d layers %v, the image has %d: %v", len(dm[0].Layers), dm[0].Layers, len(want), want)
 				}
 			}
 			e.Probe("docker-manifest-checked")
